@@ -37,10 +37,10 @@ CHECKS["C04"] = dict(
          "session, HJKY, redistribute (with/without anchor), Gennaro, Canetti and Lindell22 participants plus cosigning aggregation, and TLC validates every run. On BLS12-381 (family ProdProto) one deviating Boldyreva cosigner presents "
          "every alteration of its partial signature (a component, two components by offsets cancelling in their sum, swapped components, components signed for another message, wrong length, proofs of possession, a peer's partial "
          "signature; short / long keys x basic / aug / pop; threshold and replicated CNF / gate sharings) to an honest aggregator: ProdTrace.BlsDevOK requires rejection, blame of the deviator only, never a signature that fails verification. "
-         "DKLs23 (rvole/bbot, rvole/softspoken, two and three signers, secp256k1 / P-256) and Lindell22 (BIP-340, Mina) run round by round with one CBOR leaf of one message of one signer altered (matrix read from a recording run of the "
+         "DKLs23 (rvole/bbot, rvole/softspoken, two and three signers, secp256k1 / P-256), Lindell22 (BIP-340, Mina) and Lindell17 run round by round with one CBOR leaf of one message of one signer altered (matrix read from a recording run of the "
          "same case): ProdTrace.SignDevOK requires no panic, honest parties blame only the deviator, any aggregated output is one valid signature, and the run is stopped by an honest party, by the aggregators or without a result.",
     note="Trusted: TLC, ProtoCore's binding table (validated against the code by the full matrix), the toy group. One deviating party and one altered leaf per run; strategies that alter several "
-         "leaves consistently are explored only as the listed re-dealing / claim strategies. On production curves Boldyreva, DKLs23 and Lindell22 are in the matrix (sampled by seed in the quick tier); Lindell17 and CGGMP21 are not.",
+         "leaves consistently are explored only as the listed re-dealing / claim strategies. On production curves Boldyreva, DKLs23, Lindell22 and Lindell17 are in the matrix (DKLs23 / Lindell22 sampled by seed in the quick tier); CGGMP21 is not.",
     design_ref="DESIGN.md section 2, C04",
 )
 
